@@ -618,6 +618,9 @@ Value Search::search(Position& position, Depth depth, Value alpha, Value beta,
 
     if (best_move == NO_MOVE)
     {
+        // every move was skipped by futility pruning: fail low with alpha instead of leaking -infinity
+        // (which the parent would turn into a bogus mate score)
+        if (bestValue == -VALUE_INFINITE) bestValue = alpha;
         best_move = begin[0];
         set_new_pv_list(info, best_move);
     }
